@@ -710,6 +710,7 @@ def judge(ln):
     else: return ('skip', 'leaf')
     R = ln.res
     if not R or R[0] == 'build-err': return ('skip', 'not-built')
+    if R[0] == 'trilist-differs': return ('fail', 'trilist-differs', 'get_trilist() does not return the triangles of the slots (%s)' % ' '.join(R[1:]))
     if R[0] != 'ok': return ('skip', 'not-ok-' + R[0])           # C01 speaks about successful triangulations (C09: the others)
     A = ln.args
     nslots = int(R[1]); nvalid = int(R[2])
